@@ -662,4 +662,17 @@ def k7(ctx, kr):
     kr.functions = fn_paths(P, getattr(kr, '_enc', set()))[:100] + ['ironplc-parser::<TokenType as Logos>::lex (lifted)']
     kr.exhaustive = True
 
-KERNELS = [k1, k4, k5, k6, k7]
+# ---------------------------------------------------------------------------------------------- K8 the characters written in a string literal are the characters of the value
+@kernel('K8 parser.string_literal_characters')
+def k8(ctx, kr):
+    from . import C09 as K09
+    K09._CTX = ctx
+    kr.bounds = 'as C09-K6: a character string literal of 2 symbolic characters (printable ASCII except the own delimiter and $), single and double quoted, as variable initial value, expression constant and typed constant, through parse_program'
+    for part in par_map(K09._k6_job, [(c, 2, q, False) for c in K09.STRING_CTX for q in ("'", '"')]):
+        for f in part.findings: f['role'] = f['role'].replace('C09/K6/', 'C01/K8/')
+        merge_part(kr, part)
+    P = ctx.program()
+    kr.functions = fn_paths(P, getattr(kr, '_enc', set()))[:100] + ['ironplc-parser::<TokenType as Logos>::lex (lifted)']
+    kr.exhaustive = True
+
+KERNELS = [k1, k4, k5, k6, k7, k8]
